@@ -54,7 +54,7 @@ TABLE_OBLIGATIONS = [
     _G + "drive_types_plain",
 ]
 RULE = (
-    "yt: corpus (every fixed C19 finding of youtube.py/google.py, incl. the witnesses of FX-C19-YT4 / FX-C19-YT5 (formerly KF-C19-YT-4/5) and the "
+    "yt: corpus (every fixed C19 finding of youtube.py/google.py, incl. the witnesses of FX-C19-7adbc32 / FX-C19-319af34 (formerly KF-C19-YT-4/5) and the "
     "cache host hidden behind a TAB inside a playlist id), then every path of 0-2 segments over the 31-segment vocabulary {watch, embed, v, video, "
     "shorts, channel, user, c, playlist, feed, results, about, t} + id-like (11 chars), too-long (12), too-short (5), channel-id-like (UC+22), "
     "handle-like (@x, x, @, @@x, @watch), empty, blank, trailing-blank, '&'/'%'/non-ASCII/TAB-inside-a-continuation-pattern segments, and every "
@@ -162,10 +162,10 @@ CORPUS_YT = [
     "youtube.com/user/x /", "youtube.com/channel/x /", "youtube.com/user/ /", "youtube.com/channel/ /", "youtube.com/user/x\x1f/y",  # FX-C19-d47b8e8 trailing blank
     "https://www.youtube.com/watch?v=" + ID + "&q=zzz&list=a?u=http://x.com/", "youtu.be/" + ID + "?u=abc&list=PL?url=http://x.com/",  # FX-C19-569f4b6
     "q=1@youtube.com/user/a&u=%2Fx", "q=1@youtube.com/channel/a&u=%2Fx", "q=1@youtube.com/c/a&u=%2Fx", "q=1@youtube.com/a&u=%2Fx",  # FX-C19-716cf1e
-    # FX-C19-YT4 (formerly known finding KF-C19-YT-4): TAB / CR / LF inside a continuation pattern held by a name
+    # FX-C19-7adbc32 (formerly known finding KF-C19-YT-4): TAB / CR / LF inside a continuation pattern held by a name
     "youtube.com/user/ne\txt=%2Fwatch%3Fv%3D" + ID, "youtube.com/ne\rxt%3D%252Fwatch%253Fv%253D" + ID, "youtube.com/channel/ne\nxt=%2Fwatch%3Fv%3Dshort",
     "youtube.com/c/next=%2\tFwatch%3Fv%3D" + ID2, "https://www.google.com/url?q=https%3A%2F%2Fyoutube.com%2Fne%09xt%3D%252Fwatch%253Fv%253D" + ID2, "youtube.com/watch?v=" + ID + "&list=a\tb", "youtube.com/user/x\ty",
-    # FX-C19-YT5 (formerly known finding KF-C19-YT-5): a continuation pattern inside the playlist id competes with another one
+    # FX-C19-319af34 (formerly known finding KF-C19-YT-5): a continuation pattern inside the playlist id competes with another one
     "youtube.com/next=%2Fwatch%3Fv%3DAAAAAAAAAAA?list=next=%2Fwatch%3Fv%3DBBBBBBBBBBB", "youtube.com/watch?v=AAAAAAAAAAA&x=next%3D%252Fwatch%253Fv%253D" + ID + "&list=next=%2Fwatch%3Fv%3D" + ID2,
     "youtu.be/AAAAAAAAAAA?list=next=%2Fwatch%3Fv%3DBBBBBBBBBBB", "youtube.com/watch?v=AAAAAAAAAAA&list=PL%20x", "youtube.com/watch?v=AAAAAAAAAAA&list=a/b/.ampproject.org/c/",
     # a cache host of infer_redirection hidden behind a TAB / %09 inside the playlist id (why a playlist id stops at '/')
